@@ -53,6 +53,8 @@ def run_contract_task(args):
                 txt = ((a.doc or type(a).__doc__ or '') if a is not None else '').strip().replace('\n', ' ')
                 used.append(f'{base}: {" ".join(txt.split())[:260]}' if txt else base)
         res['assumed_used'] = used
+        res['thorough_only_used'] = sorted({nm for nm in res.get('called', []) if not nm.endswith(' [assumed]') and
+                                            any(x.name == nm and not x.assumed and getattr(x, 'tier', 'quick') == 'thorough' for x in reg.all)})
         import sys as _sys
         mod = _sys.modules.get(type(c).__module__)
         res['contract_module'] = type(c).__module__
